@@ -40,7 +40,11 @@ pub fn generate(prop: &str, tier: &str, seed: u64, outdir: &str) {
         "C14" => gen_c14(&mut out, &mut rng, thorough),
         "C07" => gen_c07(&mut out, &mut rng, thorough),
         "C11" => gen_c11(&mut out, &mut rng, thorough),
-        "C01" | "C03" | "C04" | "C05" | "C06" | "C08" | "C10" | "C12" | "C20" => gen_hist_prop(prop, &mut out, &mut rng, thorough),
+        "C01" | "C03" | "C04" | "C05" | "C08" => gen_hist_prop(prop, &mut out, &mut rng, thorough),
+        "C12" => gen_c12(&mut out, &mut rng, thorough),
+        "C10" => gen_c10(&mut out, &mut rng, thorough),
+        "C06" => gen_c06(&mut out, &mut rng, thorough),
+        "C20" => gen_c20(&mut out, &mut rng, thorough),
         _ => {
             eprintln!("no generator for {prop}");
             std::process::exit(2);
@@ -758,5 +762,359 @@ fn gen_hist_prop(prop: &str, out: &mut Out, rng: &mut Rng, thorough: bool) {
     }
     for _ in 0..cfg.sessions {
         gen_session(out, rng, &cfg);
+    }
+}
+
+// ------------------------------------------------------------------------------------
+// C12: select trees
+
+fn c12_cols_of(sel: &crate::refdb::Sel, db: &crate::refdb::RefDb) -> Vec<String> {
+    match sel.eval(db) {
+        Ok(q) => q.cols.iter().map(|c| c.name.clone()).collect(),
+        Err(_) => vec![],
+    }
+}
+
+fn c12_join_names(l: &crate::refdb::Sel, r: &crate::refdb::Sel, db: &crate::refdb::RefDb) -> Vec<String> {
+    // names of the joined table: prefixed by the operand's table name when it has one
+    let pre = |s: &crate::refdb::Sel| -> Vec<String> {
+        match s.eval(db) {
+            Ok(q) => q.cols.iter().map(|c| if q.name.is_empty() { c.name.clone() } else { format!("{}.{}", q.name, c.name) }).collect(),
+            Err(_) => vec![],
+        }
+    };
+    let mut v = pre(l);
+    v.extend(pre(r));
+    v
+}
+
+fn c12_cond(rng: &mut Rng, names: &[String]) -> E {
+    if names.is_empty() || rng.chance(1, 12) {
+        return E::Bin("eq", Box::new(E::Col("Nope".into())), Box::new(E::Lit(V::Int(1))));
+    }
+    let a = E::Col(rng.pick(names).clone());
+    let b = if rng.chance(1, 2) { E::Col(rng.pick(names).clone()) } else { E::Lit(rng.pick(&[V::Int(1), V::Int(2), V::Null, V::Str("x".into())]).clone()) };
+    let op = *rng.pick(&["eq", "ne", "lt", "le", "gt", "ge"]);
+    let base = E::Bin(op, Box::new(a.clone()), Box::new(b));
+    match rng.below(5) {
+        0 => E::Un("not", Box::new(base)),
+        1 => E::Bin("or", Box::new(base), Box::new(E::Bin("eq", Box::new(a), Box::new(E::Lit(V::Null))))),
+        2 => E::Lit(V::Int(1)),
+        _ => base,
+    }
+}
+
+fn c12_tree(rng: &mut Rng, depth: usize, db: &crate::refdb::RefDb, tables: &[&str]) -> crate::refdb::Sel {
+    use crate::refdb::*;
+    let from = if depth == 0 || rng.chance(1, 3) {
+        let t = if rng.chance(1, 15) { "Missing" } else { *rng.pick(tables) };
+        Q::Table(t.to_string())
+    } else {
+        let l = c12_tree(rng, depth - 1, db, tables);
+        let r = c12_tree(rng, depth - 1, db, tables);
+        let names = c12_join_names(&l, &r, db);
+        let on = c12_cond(rng, &names);
+        if rng.chance(1, 2) { Q::Inner(Box::new(l), Box::new(r), on) } else { Q::Left(Box::new(l), Box::new(r), on) }
+    };
+    let mut sel = Sel { from, cols: vec![], cond: None };
+    let names = c12_cols_of(&sel, db);
+    if rng.chance(1, 3) {
+        sel.cond = Some(c12_cond(rng, &names));
+    }
+    if rng.chance(1, 3) && !names.is_empty() {
+        let k = 1 + rng.below(3) as usize;
+        sel.cols = (0..k).map(|_| if rng.chance(1, 15) { "Nope".to_string() } else { rng.pick(&names).clone() }).collect();
+    }
+    sel
+}
+
+fn gen_c12(out: &mut Out, rng: &mut Rng, thorough: bool) {
+    use crate::refdb::*;
+    let sessions = if thorough { 300 } else { 12 };
+    let per = if thorough { 1500 } else { 700 };
+    for sidx in 0..sessions {
+        out.req("new", "new 0".into());
+        let mut db = RefDb::default();
+        let mut mk = |name: &str, second: &str, out: &mut Out, rng: &mut Rng| {
+            let mut k = ColDef::new("K", CT::I16);
+            k.key = true;
+            k.nullable = false;
+            let mut v = ColDef::new(second, if rng.chance(1, 2) { CT::Str(0) } else { CT::I32 });
+            v.nullable = true;
+            let cols = vec![k, v];
+            out.req("create_table", format!("create_table {} {} {}", hex_of_str(name), cols[0].tok(), cols[1].tok()));
+            let n = if sidx % 4 == 0 && name == "B" { 0 } else { 1 + rng.below(4) };
+            let mut rows = vec![];
+            for i in 0..n {
+                let val = match cols[1].ct {
+                    CT::Str(_) => rng.pick(&[V::Null, V::Str("x".into()), V::Str("y".into())]).clone(),
+                    _ => rng.pick(&[V::Null, V::Int(1), V::Int(2), V::Int(3)]).clone(),
+                };
+                rows.push(vec![V::Int(i as i32 + 1), val]);
+            }
+            if !rows.is_empty() {
+                let mut parts = vec![rows.len().to_string()];
+                for r in &rows {
+                    parts.push("2".into());
+                    parts.push(r[0].tok());
+                    parts.push(r[1].tok());
+                }
+                out.req("insert", format!("insert {} {}", hex_of_str(name), parts.join(" ")));
+            }
+            (name.to_string(), RefTable { cols, rows })
+        };
+        let (n, t) = mk("A", "V", out, rng);
+        db.tables.insert(n, t);
+        let (n, t) = mk("B", "W", out, rng);
+        db.tables.insert(n, t);
+        let (n, t) = mk("C3", "V", out, rng);
+        db.tables.insert(n, t);
+        out.req("snapshot", "snapshot".into());
+        let tables = ["A", "B", "C3"];
+        for _ in 0..per {
+            let d = rng.below(4) as usize;
+            let sel = c12_tree(rng, d, &db, &tables);
+            out.req(&format!("select_depth{d}"), format!("select {}", sel.toks()));
+        }
+    }
+}
+
+// ------------------------------------------------------------------------------------
+// C10: summary information
+
+fn gen_c10(out: &mut Out, rng: &mut Rng, thorough: bool) {
+    use crate::exec::ALL_CP;
+    let strs_ascii: Vec<String> = (0..9).map(|n| "abcdefghi"[..n].to_string()).collect();
+    let strs_uni = ["\u{e9}", "\u{e9}\u{e9}", "a\u{e9}", "\u{e9}\u{e9}\u{e9}", "\u{20ac}uro", "\u{65e5}\u{672c}", "\u{1f600}", "\u{ff}\u{fe}AB", "\u{feff}x"];
+    let props = ["title", "subject", "author", "comments", "app"];
+    // exhaustive: all setter/clearer sequences up to length 3 over a reduced alphabet, reopen after each
+    let ops: Vec<String> = {
+        let mut v = vec![];
+        for p in ["author", "title"] {
+            v.push(format!("sum_set {p} {}", hex_of_str("ab")));
+            v.push(format!("sum_set {p} {}", hex_of_str("abcde")));
+            v.push(format!("sum_clear {p}"));
+        }
+        v.push("sum_set wc 7".into());
+        v.push("sum_clear wc".into());
+        v.push(format!("sum_set arch {}", hex_of_str("x64")));
+        v.push("sum_set langs 1033,1041".into());
+        v.push("sum_clear arch".into());
+        v.push("sum_clear langs".into());
+        v.push("sum_set cp Windows1252".into());
+        v.push("sum_set cp Utf8".into());
+        v.push("sum_set ctime 1489862796.123456700".into());
+        v.push("sum_set uuid 34ab5c539b304e14aef02c1c7ba826c0".into());
+        v
+    };
+    let depth = if thorough { 3 } else { 2 };
+    let mut idx = vec![0usize; depth];
+    'outer: loop {
+        out.req("new", format!("new {}", idx[0] % 3));
+        for &i in &idx {
+            out.req("seq_op", ops[i].clone());
+        }
+        out.req("snapshot", "snapshot".into());
+        out.req("reopen", format!("reopen {}", crate::hist::CLOSE_MODES[idx[depth - 1] % 3]));
+        out.req("snapshot", "snapshot".into());
+        let mut p = depth;
+        loop {
+            if p == 0 {
+                break 'outer;
+            }
+            p -= 1;
+            if idx[p] + 1 < ops.len() {
+                idx[p] += 1;
+                for q in p + 1..depth {
+                    idx[q] = 0;
+                }
+                break;
+            }
+        }
+    }
+    out.exhaustive.push(format!("all sequences of {depth} setter/clearer operations over {} operations, each followed by save and reopen", ops.len()));
+    // every code page, strings of every length class modulo 4, in any switching order
+    let n = if thorough { 6000 } else { 500 };
+    for _ in 0..n {
+        out.req("new", format!("new {}", rng.below(3)));
+        let steps = 2 + rng.below(10);
+        for _ in 0..steps {
+            match rng.below(10) {
+                0 | 1 => {
+                    let (name, _) = *rng.pick(ALL_CP);
+                    let name = if rng.chance(1, 3) { "Utf8" } else { name };
+                    out.req("set_cp", format!("sum_set cp {name}"));
+                }
+                2 | 3 | 4 | 5 => {
+                    let p = *rng.pick(&props);
+                    let s = if rng.chance(2, 3) { rng.pick(&strs_ascii).clone() } else { rng.pick(&strs_uni).to_string() };
+                    out.req("set_str", format!("sum_set {p} {}", hex_of_str(&s)));
+                }
+                6 => out.req("clear", format!("sum_clear {}", rng.pick(&["title", "subject", "author", "comments", "app", "wc", "uuid", "ctime", "arch", "langs"]))),
+                7 => {
+                    if rng.chance(1, 2) {
+                        out.req("arch_langs", format!("sum_set arch {}", hex_of_str(*rng.pick(&["x64", "Intel", "Arm64", ""]))));
+                    } else {
+                        out.req("arch_langs", format!("sum_set langs {}", rng.pick(&["1033", "0", "1033,1041,65535", "-"])));
+                    }
+                }
+                8 => out.req("set_misc", format!("sum_set wc {}", rng.pick(&[0i64, 2, -1, 2147483647, -2147483648]))),
+                _ => {
+                    let hex: String = (0..32).map(|_| format!("{:x}", rng.below(16))).collect();
+                    if rng.chance(1, 2) {
+                        out.req("set_misc", format!("sum_set uuid {hex}"));
+                    } else {
+                        out.req("set_misc", format!("sum_set ctime {}.{}", rng.range(-11_644_473_600, 4_000_000_000), rng.below(1_000_000_000)));
+                    }
+                }
+            }
+            if rng.chance(1, 4) {
+                out.req("snapshot", "snapshot".into());
+            }
+        }
+        out.req("snapshot", "snapshot".into());
+        out.req("flush", "flush".into());
+        out.req("summary_raw", "@summary_raw".into());
+        out.req("reopen", format!("reopen {}", rng.pick(&crate::hist::CLOSE_MODES)));
+        out.req("snapshot", "snapshot".into());
+    }
+}
+
+// ------------------------------------------------------------------------------------
+// C06: column definitions over all builder options
+
+fn gen_c06(out: &mut Out, rng: &mut Rng, thorough: bool) {
+    let n = if thorough { 20000 } else { 1500 };
+    let widths = [0usize, 1, 2, 64, 72, 254, 255, 256, 257, 511, 512, 4095, 4096, 65535, 65536];
+    let cats: Vec<&'static str> = CATEGORIES.iter().map(|c| c.0).collect();
+    let mut tno = 0;
+    for i in 0..n {
+        if i % 40 == 0 {
+            out.req("new", format!("new {}", rng.below(3)));
+            tno = 0;
+        }
+        let ncols = match rng.below(12) {
+            0 => 32,
+            1 => 33,
+            2 => 31,
+            _ => 1 + rng.below(5) as usize,
+        };
+        let mut cols = vec![];
+        for j in 0..ncols {
+            let ct = match rng.below(5) {
+                0 => CT::I16,
+                1 => CT::I32,
+                _ => CT::Str(*rng.pick(&widths)),
+            };
+            let mut c = ColDef::new(&format!("C{j}"), ct.clone());
+            c.key = j == 0 || rng.chance(1, 6);
+            c.nullable = rng.chance(1, 2);
+            c.localizable = rng.chance(1, 4);
+            if rng.chance(1, 4) {
+                c.range = Some(*rng.pick(&[(0, 10), (-5, 5), (i32::MIN, 5), (1, i32::MAX), (i32::MIN + 1, i32::MAX), (7, 3), (i32::MIN, i32::MIN)]));
+            }
+            if rng.chance(1, 5) {
+                let t = *rng.pick(&["Other", "_T.x", "9bad", "", "A_very_long_table_name_that_goes_on_and_on_and_on"]);
+                c.fk = Some((t.to_string(), *rng.pick(&[1, 2, 32, 33, 0, -1])));
+            }
+            if matches!(ct, CT::Str(_)) {
+                if rng.chance(1, 3) {
+                    c.cat = Some(*rng.pick(&cats));
+                }
+                if rng.chance(1, 5) {
+                    c.enums = match rng.below(6) {
+                        0 => vec!["a;b".into(), "c".into()],
+                        1 => vec!["".into()],
+                        2 => vec!["x".into(), "".into()],
+                        3 => vec!["q".repeat(200), "r".repeat(60)],
+                        _ => vec!["a".into(), "bb".into(), "Zed".into()],
+                    };
+                }
+            }
+            if rng.chance(1, 40) {
+                c.name = rng.pick(&["9x", "", "a b", "Dup", "Dup", &"n".repeat(33), &"n".repeat(32), &"n".repeat(65)]).to_string();
+            }
+            cols.push(c);
+        }
+        if rng.chance(1, 30) {
+            for c in cols.iter_mut() {
+                c.key = false;
+            }
+        }
+        tno += 1;
+        let name = match rng.below(25) {
+            0 => "T".repeat(32),
+            1 => "T".repeat(33),
+            2 => "T".repeat(60),
+            3 => "T".repeat(61),
+            4 => "_Tables".to_string(),
+            _ => format!("T{tno}"),
+        };
+        let toks: Vec<String> = cols.iter().map(|c| c.tok()).collect();
+        out.req("create_table", format!("create_table {} {}", hex_of_str(&name), toks.join(" ")));
+        out.req("snapshot", "snapshot".into());
+        if i % 40 == 39 || rng.chance(1, 10) {
+            out.req("reopen", format!("reopen {}", rng.pick(&crate::hist::CLOSE_MODES)));
+            out.req("snapshot", "snapshot".into());
+        }
+    }
+}
+
+// ------------------------------------------------------------------------------------
+// C20: capacity limits at L-1, L, L+1
+
+fn gen_c20(out: &mut Out, rng: &mut Rng, thorough: bool) {
+    // columns: 31, 32, 33
+    for n in [31usize, 32, 33, 34] {
+        out.req("new", "new 0".into());
+        let cols: Vec<String> = (0..n)
+            .map(|j| {
+                let mut c = ColDef::new(&format!("C{j}"), CT::I16);
+                c.key = j == 0;
+                c.tok()
+            })
+            .collect();
+        out.req("columns_limit", format!("create_table {} {}", hex_of_str("Wide"), cols.join(" ")));
+        out.req("snapshot", "snapshot".into());
+        out.req("reopen", "reopen into_inner".into());
+        out.req("snapshot", "snapshot".into());
+    }
+    // names: table names around 31/32/33 and 60/61 characters; stream names around the limit
+    out.req("new", "new 0".into());
+    for len in [30usize, 31, 32, 33, 59, 60, 61, 62, 63] {
+        let name = "N".repeat(len);
+        out.req("name_limit", format!("create_table {} 4b:i16:K:-:-:-:-", hex_of_str(&name)));
+        out.req("snapshot", "snapshot".into());
+    }
+    for len in [30usize, 31, 32, 61, 62, 63, 64] {
+        for ch in ['s', '-'] {
+            let name: String = std::iter::repeat(ch).take(len).collect();
+            out.req("name_limit", format!("stream_write {} 0102", hex_of_str(&name)));
+        }
+    }
+    out.req("snapshot", "snapshot".into());
+    out.req("reopen", "reopen flush".into());
+    out.req("snapshot", "snapshot".into());
+    // rows: L-1, L, L+1 in one batch and incrementally, across reopen, and after deletions
+    // (oracle-only macro requests: 65,536-row tables are outside what the list-based model runs quickly)
+    let row_cases: &[&str] = if thorough {
+        &["65535 1 1", "65536 1", "65537", "65000 535 1 1", "65536 0", "1 65535 1", "32768 32768 1"]
+    } else {
+        &["65535 1 1", "65537"]
+    };
+    for c in row_cases {
+        out.req("rows_limit", format!("@rows_limit {c}"));
+    }
+    // strings: a pool that is one entry short of what two-byte references can address
+    out.req("strings_limit", "@pool_limit 65533".into());
+    out.req("strings_limit", "@pool_limit 65534".into());
+    out.req("strings_limit", "@pool_limit 65535".into());
+    // plus ordinary histories
+    let cfg = crate::hist::HistCfg {
+        sessions: if thorough { 2000 } else { 100 }, max_steps: 15, non_ascii: true, streams: true,
+        summary: false, invalid: true, key_updates: true, reopen: true, raw: false, selects: false,
+    };
+    for _ in 0..cfg.sessions {
+        crate::hist::gen_session(out, rng, &cfg);
     }
 }
